@@ -435,7 +435,7 @@ fn messy_strategy() -> BoxedStrategy<MessyCase> {
             3..9,
         ),
         prop_oneof![2 => Just(10u8), 1 => 0u8..=50],
-        prop::sample::select(vec![1u8, 2, 4]),
+        prop::sample::select(vec![1u8, 2, 3, 4, 8]),
     )
         .prop_map(|(k, anc, samples, m, threads)| MessyCase { k, anc, samples, m, threads })
         .boxed()
